@@ -54,6 +54,39 @@ def _names(e):
     return {n.id for n in ast.walk(e) if isinstance(n, ast.Name)}
 
 
+def _comprehension_bound(root, name):
+    """ids of the Name nodes under `root` that refer to a comprehension's
+    own variable `name` (a comprehension has a scope of its own: its target
+    shadows a local of the same name)."""
+    out = set()
+    for c in ast.walk(root):
+        if not isinstance(c, (ast.ListComp, ast.SetComp, ast.DictComp,
+                              ast.GeneratorExp)):
+            continue
+        binds = False
+        for k, g in enumerate(c.generators):
+            if any(isinstance(x, ast.Name) and x.id == name
+                   for x in ast.walk(g.target)):
+                binds = True
+                first = k
+                break
+        if not binds:
+            continue
+        # everything in the comprehension except the iterables evaluated
+        # before the binding generator
+        parts = [c.elt] if hasattr(c, "elt") else [c.key, c.value]
+        for k, g in enumerate(c.generators):
+            if k > first:
+                parts.append(g.iter)
+            if k >= first:
+                parts += list(g.ifs) + [g.target]
+        for p_ in parts:
+            for x in ast.walk(p_):
+                if isinstance(x, ast.Name) and x.id == name:
+                    out.add(id(x))
+    return out
+
+
 class _Subst(ast.NodeTransformer):
     def __init__(self, repl):
         self.repl = repl          # id(Name node) -> replacement expr
@@ -130,9 +163,10 @@ def _one_round(fn, only_params=False):
         for u in cfg.reachable:
             if u is dn or u.ast is None:
                 continue
+            shadow = _comprehension_bound(_use_root(u), name)
             uses = [x for x in _walk_no_nested(_use_root(u))
                     if isinstance(x, ast.Name) and x.id == name and
-                    isinstance(x.ctx, ast.Load)]
+                    isinstance(x.ctx, ast.Load) and id(x) not in shadow]
             if not uses:
                 continue
             if defs_reaching(rd, u, name) != {dn.id}:
